@@ -31,7 +31,7 @@ ALLOWED_THIRD_PARTY = (
 STD_CRATES = {"std", "core", "alloc"}
 
 
-def in1_no_process_wide_state(ctx, rep):
+def in1_no_process_wide_state(ctx, rep, floor_sites=400):
     R = "IN1"
     facts = ctx.prog.facts
     for s in facts.statics:
@@ -71,7 +71,7 @@ def in1_no_process_wide_state(ctx, rep):
             rep.bad(R, "unsafe-fn:%s" % fn_["path"], "%s:%d" % (fn_["loc"]["file"], fn_["loc"]["line"]), "unsafe fn in the crate")
     rep.ok(R, "no-thread-local-access", "", "no thread-local access in any body") if not n_tls else None
     rep.ok(R, "no-user-unsafe", "", "no user-written call of an unsafe fn, no unsafe fn (%d call sites scanned)" % n_calls) if not n_unsafe else None
-    rep.floor(R, "call sites scanned", n_calls, 400)
+    rep.floor(R, "call sites scanned", n_calls, floor_sites)
 
 
 def _leaves(t):
@@ -151,12 +151,13 @@ def in3_handles_stay_home(ctx, rep):
     from rules.subs import _resolve_upvars
     nl = 0
     for b in ctx.prog.bodies:
-        if not b.is_closure():
-            continue
         bp = ctx.prog.bp(b)
         for s in ctx.prog.sites(b):
             if s.ck in LOCK_CALLS and "Subscriber<" in ((s.fn.get("args") or [""])[0]):
                 t = bp.arg_term(s.bb, 0)
+                t0 = strip_clone(strip_wrap(t))
+                if t0 == ("field", ("param", 1), A.f_subscribers) and (b.j.get("impl_adt") or "").endswith("StoreImpl"):
+                    continue  # a method of the store locking its own field
                 rb, rt = _resolve_upvars(ctx, b, t)
                 nl += 1
                 good = rt == ("field", ("param", 1), A.f_subscribers) and (rb.j.get("impl_adt") or "").endswith("StoreImpl")
